@@ -27,8 +27,8 @@ The ORACLE looks at the implementation's line only:
   * each of the three texts is decoded by an independent TOML reader (python's tomllib) and must give
     exactly the described value (up to map order);
   * in each of the three section structures no [table] is opened again after one of its sub-sections
-    (values before tables), no header or key occurs twice in one table, and the structure has the same
-    keys per table as the described value.
+    (values before tables), no header or key occurs twice in one table, and every section lists all the
+    values of its table (and nothing that is not a key of it).
 
 `txt <text>`: a valid document is parsed as toml::Table, printed, parsed and printed again: both prints
 must be equal and tomllib must read the print back as the value tomllib reads from the source
@@ -584,9 +584,10 @@ def structure_ok(doc, tree):
                 break
         if not ok:
             return "section %r has no table in the value" % (path,)
-        want = sorted(k for k, x in t.items if not is_tab(x) and not is_aot(x))
-        if sorted(keys) != want:
-            return "section %r lists keys %r, the table's values are %r" % (path, sorted(keys), want)
+        want = set(k for k, x in t.items if not is_tab(x) and not is_aot(x))
+        allk = set(k for k, _ in t.items)
+        if not (want <= set(keys) <= allk):
+            return "section %r lists keys %r, the table's values are %r" % (path, sorted(keys), sorted(want))
     return None
 
 
@@ -661,8 +662,6 @@ def oracle(case, impl_line):
         why = structure_ok(f[k], tree)
         if why:
             return "%s: %s" % (k, why)
-        if len(parse_doc(f[k])) != 1 + count_tables(tree):
-            return "%s: %d sections for %d tables that need one" % (k, len(parse_doc(f[k])) - 1, count_tables(tree))
     if dec(f["rb"]) is None:
         return "unreadable rb"
     if norm_tree(dec(f["rb"])) != want:
